@@ -846,7 +846,7 @@ def truncate_rejects(mout):
 
 def main():
     ck = Check(PROP)
-    ck.trusted = DEFAULT_TRUSTED + ["modelled not verified: std::shuffle / random::globalRng (the permutation actually drawn is read back from the output and handed to the model as an explicit argument; theorems quantify over all permutations), boost::shared_ptr batch sharing (harness calls makeIndependent() where the API requires it)"]
+    ck.trusted = DEFAULT_TRUSTED + ["modelled not verified: std::shuffle / random::globalRng (the permutation actually drawn is read back from the output and handed to the model as an explicit argument; theorems quantify over all permutations), boost::shared_ptr reference counting itself (the sharing discipline built on it is modelled by C03Heap.v and compared on every line of the sharing stream; in the basic and weighted streams the harness calls makeIndependent() where the API requires it), std::sort in detail::complement (modelled by insertion sort)"]
     ck.assumptions = ["operations respect the documented preconditions (indices in range, partition sums equal the element count, non-empty ranges)"]
     ck.proofs()
     model = extract_model("C03", "C03Extract.v", "c03_driver.ml")
@@ -923,6 +923,8 @@ def main():
     ck.cov["evaluations"] = total_eval
     ck.cov["distinct_nontrivial"] = len(distinct)
     ck.cov["rule"] = "random operation histories over 4 dataset registers of LabeledData<RealVector|unsigned|CompressedRealVector, unsigned> (create, repartition, splitBatch, splice, append, reorder, shuffle, indexedSubset, splitAtElement, repartitionByClass, binarySubProblem, element/iterator access, view->dataset, view subset of subset->dataset, transform%s); element counts 1..17 (40 thorough) aimed at n mod max in {0,1,max-1}, labels with absent classes; distinct = distinct (type, history)" % (", all six CV fold constructors through the model's cv_create/scv_create (createCVIID with the drawn folds read back), validation(i)/training(i) of every fold, element shapes of the set and of every part for the input and the label container" if PROP == "C12" else "")
+    if PROP == "C03":
+        ck.cov["rule"] += "; SHARING stream: histories over 6 registers + the dataset inside a CVFolds object + the dataset inside a DataView (create, copy, clear, indexedSubset 1/3 arguments, splice, append, push_back, element and batch-element writes, makeIndependent, repartition, splitBatch, reorderElements, createCVIndexed, training/validation parts, view writes) WITHOUT harness-side makeIndependent: every handle, both shapes and the operator== pairs observed after every operation, exceptions of the independence check are observations; aimed openings: write through a sharing subset, write after makeIndependent, write through a fold's training part, empty containers, single-element batches, refused-then-accepted operations, view writes; WEIGHTED stream: WeightedLabeledData with ids as elements and weight 2*id+1 (uniform weights, indexedSubset, splice, append, repartition, splitBatch, weightedInputs for scalar inputs, sumOfWeights, classWeight, bootstrap with sizes 0, n, <n, >n)"
     ck.cov["samples"] = samples
     ck.notes["op_mix"] = opmix
     if STREAM != "all" and not ck.replay: ck.replay = "partial run (--stream %s)" % STREAM     # evidence of a partial run goes to the scratch directory
